@@ -162,7 +162,8 @@ func UNFOLD_UserPrim(h *rt.H) {
 // ---- UnfoldState / Expander: the events of the member are handed to user code
 
 type ulogT struct {
-	log []int16
+	log  []int16
+	strs []string // strings as handed to the state (kept, not copied)
 }
 
 type ulogState struct {
@@ -182,6 +183,7 @@ func (s *ulogState) note(ctx gotype.UnfoldCtx, code int16) error {
 func (s *ulogState) OnNil(ctx gotype.UnfoldCtx) error          { return s.note(ctx, -1) }
 func (s *ulogState) OnBool(ctx gotype.UnfoldCtx, b bool) error { return s.note(ctx, -2) }
 func (s *ulogState) OnString(ctx gotype.UnfoldCtx, v string) error {
+	s.to.strs = append(s.to.strs, v)
 	return s.note(ctx, 1000+int16(len(v)))
 }
 func (s *ulogState) OnInt(ctx gotype.UnfoldCtx, v int64) error {
@@ -254,6 +256,7 @@ func UNFOLD_UserState(h *rt.H) {
 		}
 	}
 	shape := h.Choose("shape", 0, 6)
+	wantStr := ""
 	intKind := 0
 	if shape == 0 {
 		intKind = h.Choose("intkind", 0, 10)
@@ -272,8 +275,16 @@ func UNFOLD_UserState(h *rt.H) {
 			step(callScalar(k, uint64(val), v))
 			want = []int16{int16(val)}
 		case 1:
-			step(v.OnString("abc"))
+			// by value or by reference from a buffer that is scribbled over afterwards
+			if h.Choose("strRef", 0, 1) == 1 {
+				buf := []byte("abc")
+				step(v.OnStringRef(buf))
+				buf[0], buf[1], buf[2] = 0xEE, 0xEE, 0xEE
+			} else {
+				step(v.OnString("abc"))
+			}
 			want = []int16{1003}
+			wantStr = "abc"
 		case 2:
 			step(v.OnNil())
 			want = []int16{-1}
@@ -352,6 +363,29 @@ func UNFOLD_UserState(h *rt.H) {
 		h.Assert("member-events", eq(got, want) && (member != 3 || eq(got2, want)))
 	}
 	h.Assert("neighbours", rt.And(o.A == x, o.Z == y))
+	if wantStr != "" {
+		// the string the state kept is still what the stream said
+		var kept []string
+		switch member {
+		case 0:
+			kept = o.L.strs
+		case 1:
+			kept = o.E.strs
+		case 2:
+			if o.P != nil {
+				kept = o.P.strs
+			}
+		case 3:
+			if len(o.S) == 2 {
+				kept = append(append(kept, o.S[0].strs...), o.S[1].strs...)
+			}
+		}
+		ok := len(kept) > 0
+		for _, k := range kept {
+			ok = ok && k == wantStr
+		}
+		h.Assert("kept-string-intact", ok)
+	}
 }
 
 // ---- processing unfolders: the member's value is unfolded into a cell of another
@@ -473,4 +507,106 @@ func UNFOLD_UserProcessing(h *rt.H) {
 	}
 	h.Assert("processed", ok)
 	h.Assert("neighbours", rt.And(o.A == x, o.Z == y))
+}
+
+// uprocSelf: the processing unfolder hands the target itself out as cell (unfolded by
+// the default struct unfolder) and post-processes it afterwards.
+type uprocSelf struct {
+	A     int8
+	B     int8
+	Calls int8 `struct:"-"`
+}
+
+type uprocSelfOuter struct {
+	N int8
+	S uprocSelf
+	P *uprocSelf
+}
+
+// UNFOLD_UserProcessingSelf (C13, C14, C17): "reuse the target as cell and post
+// process": the member is unfolded by the default unfolder for its type and the
+// continuation runs once; a second document through the same unfolder (Reset,
+// SetTarget) is processed exactly like the first.
+func UNFOLD_UserProcessingSelf(h *rt.H) {
+	x, y := int8(h.U8("x")), int8(h.U8("y"))
+	proc := func(to *uprocSelf) (interface{}, func(*uprocSelf, interface{}) error) {
+		return to, func(to *uprocSelf, cell interface{}) error {
+			to.Calls++
+			to.B += 100
+			return nil
+		}
+	}
+	doc := func(v structform.ExtVisitor, top bool) error {
+		var err error
+		step := func(e error) {
+			if err == nil {
+				err = e
+			}
+		}
+		self := func() {
+			step(v.OnObjectStart(-1, structform.AnyType))
+			step(v.OnKey("a"))
+			step(v.OnInt8(x))
+			step(v.OnKey("b"))
+			step(v.OnInt8(3))
+			step(v.OnObjectFinished())
+		}
+		if top {
+			self()
+			return err
+		}
+		step(v.OnObjectStart(-1, structform.AnyType))
+		step(v.OnKey("n"))
+		step(v.OnInt8(y))
+		step(v.OnKey("s"))
+		self()
+		step(v.OnKey("p"))
+		self()
+		step(v.OnObjectFinished())
+		return err
+	}
+	good := func(s uprocSelf) bool { return rt.And(rt.And(s.A == x, s.B == 103), s.Calls == 1) }
+	top := h.Choose("top", 0, 1) == 1
+	var t1, t2 uprocSelf
+	var o1, o2 uprocSelfOuter
+	var first interface{} = &o1
+	if top {
+		first = &t1
+	}
+	u, err := gotype.NewUnfolder(first, gotype.Unfolders(proc))
+	h.Assert("unfolder-created", err == nil)
+	if err != nil {
+		return
+	}
+	v := structform.EnsureExtVisitor(u)
+	if h.Choose("abandonFirst", 0, 1) == 1 {
+		// the first document is abandoned after a mismatch
+		_ = v.OnObjectStart(-1, structform.AnyType)
+		if top {
+			_ = v.OnKey("a")
+		} else {
+			_ = v.OnKey("n")
+		}
+		h.Assert("mismatch-is-an-error", v.OnArrayStart(1, structform.AnyType) != nil || v.OnString("x") != nil)
+	} else {
+		h.Assert("first-document", doc(v, top) == nil)
+		if top {
+			h.Assert("first-processed", good(t1))
+		} else {
+			h.Assert("first-processed", rt.And(good(o1.S), o1.P != nil && good(*o1.P)) && o1.N == y)
+		}
+	}
+	u.Reset()
+	second := h.Choose("secondTop", 0, 1) == 1
+	if second {
+		h.Assert("settarget", u.SetTarget(&t2) == nil)
+	} else {
+		h.Assert("settarget", u.SetTarget(&o2) == nil)
+	}
+	h.Assert("second-document", doc(v, second) == nil)
+	if second {
+		h.Assert("second-processed-like-fresh", good(t2))
+	} else {
+		h.Assert("second-processed-like-fresh", rt.And(good(o2.S), o2.P != nil && good(*o2.P)) && o2.N == y)
+	}
 }
